@@ -36,6 +36,13 @@ def obligations(ctx: Ctx):
         Ob(f"{P}.R1", "R", "null / \"\" re-lex as NULL / STRING: three different token shapes", LX.FUNCS_EMIT + LX.FUNCS_LEX, partial(LX.ob_literals, oid=f"{P}.R1")),
         Ob(f"{P}.R1.q", "R", "quoted emission (incl. \"\") is one STRING token", LX.FUNCS_EMIT + LX.FUNCS_LEX, partial(LX.ob_quoted_shape, oid=f"{P}.R1")),
     ]
+    from props import framesobs as _FO
+
+    W = "octave_mcp.mcp.write:WriteTool.execute"
+    obs += [
+        Ob(f"{P}.F1.state", "F", "the document a request edits is built from the file read by THIS call: the tool's closure keeps no process state (module objects, memoised parsed documents) that an earlier request could have edited", [W], _FO.ob_no_effects([W], ("global_write",))),
+        Ob(f"{P}.F1.memo", "F", "memoised functions in the tool's closure are keyed by arguments whose equality implies they are indistinguishable", [W], _FO.ob_memo_keys([W])),
+    ]
     try:
         from props import C18_b
 
